@@ -5,9 +5,21 @@ operand lists).  Tie: the differential pipeline of checks/memlib.py — directed
 named in DESIGN 2.7 for sets) + seeded random programs from checks/gen_set.py run on the real
 server.Manager under the virtual clock; the extracted model replays every step and compares every
 reply (map-ordered replies sorted; SPOP/SRANDMEMBER through the acceptor) and every keyspace dump."""
+import resource
+
 from . import gen_set, memlib
 
 PID = "C11"
+
+
+def _deep_stack():
+    """The extracted model (and ml/memrun.ml) recurse once per element of a reply; SRANDMEMBER with
+    count -2^20 legitimately answers with a million elements.  Child processes inherit the limit."""
+    try:
+        soft, hard = resource.getrlimit(resource.RLIMIT_STACK)
+        resource.setrlimit(resource.RLIMIT_STACK, (hard, hard))
+    except (ValueError, OSError):
+        pass
 
 
 def make_cases(tier, seed):
@@ -16,6 +28,7 @@ def make_cases(tier, seed):
 
 
 def run(ctx):
+    _deep_stack()
     return memlib.run_family(
         ctx, PID, make_cases,
         rule="directed cases for every defect listed in design.d/C11.md + seeded random programs (1-30 commands) of the 14 set "
